@@ -156,7 +156,9 @@ class C07(Prop):
     RULE = ('one cassette (in-memory / file / S3 with key prefix "", "p" or "a/b") per case; 0-5 recordings saved before and '
             'after the main one; recordings of 0-12 keys with hostile key texts and values / metadata from the faithful domain, '
             'a third of them with shared sub-objects; every saved id and 2-5 never-saved ids fetched; stored names and stored '
-            'text compared with the model. Non-trivial: the main recording has at least one key or one metadata entry; '
+            'text compared with the model; categories with dots, brackets, colons, * and ?; half of the S3 cassettes sample at storage '
+            'level with a calculator that keeps everything after a draw; + (not modelled) 2-3 threads saving different recordings '
+            'through one file / in-memory cassette object under the line scheduler. Non-trivial: the main recording has at least one key or one metadata entry; '
             'distinct = distinct canonical case')
     TRUSTED = ['correspondence harness harness/props/c07.py + c06.py + Lean driver (Drive/Codec.lean)',
                'jsonpickle 0.9.3 + json as transcribed in PlaybackModel/Codec.lean (token level); zlib is a parameter of the '
